@@ -208,6 +208,45 @@ def work_flags(chunk):
     return acc
 
 
+# -- short user step tables in the truncation-dominated range -------------------------------------------------------------
+# With at most two extrapolated rows the reported estimate is Richardson's own (no dea3 stage).  Small base steps make
+# successive rows agree to ~1e-9 although the true error is of that size too: the estimate must still cover it.
+SHORT_FUNS = {'exp(x)': (np.exp, lambda x, n: math.exp(x)),
+              'sin(x)': (np.sin, lambda x, n: math.sin(x + n * math.pi / 2)),
+              '1/(1+x^2)': (lambda x: 1.0 / (1.0 + x * x), None)}
+
+
+def short_cases():
+    return [(fn, m, n, b, ns, x) for fn in ('exp(x)', 'sin(x)') for m in ('central', 'forward') for n in (1, 2)
+            for b in (0.01, 0.02, 0.03, 0.05) for ns in (4, 5) for x in (0.5, 1.0)]
+
+
+def work_short(chunk):
+    import warnings
+    import numdifftools as nd
+    from numdifftools.step_generators import MinStepGenerator
+    acc = fw.Acc()
+    for fn, m, n, b, ns, x in chunk:
+        f, ex = SHORT_FUNS[fn]
+        case = ('short', fn, m, n, b, ns, x)
+        jc = dict(kind='short', f=fn, method=m, n=n, base_step=b, num_steps=ns, x=x)
+        with warnings.catch_warnings():
+            warnings.simplefilter('ignore')
+            val, info = nd.Derivative(f, n=n, method=m, step=MinStepGenerator(base_step=b, step_ratio=2, num_steps=ns),
+                                      full_output=True)(x)
+        exact = ex(x, n)
+        err = abs(float(val) - exact)
+        e = float(np.asarray(info.error_estimate).ravel()[0])
+        K1 = cm.env('K1', m, n)
+        bound = K1 * e + 1e-12 * max(abs(exact), 1.0)
+        acc.case(case, nontrivial=True, cell='short-table/%s' % m, outcome=(m, n, err <= bound))
+        if not (err <= bound):
+            acc.violation('C02:Derivative:dishonest-estimate:short-table:%s:n=%d' % (m, n), jc,
+                          'Derivative(%s, n=%d, %s, step=MinStepGenerator(base_step=%g, step_ratio=2, num_steps=%d))(%r): error '
+                          '%.3g > K1=%g x estimate %.3g + 1e-12' % (fn, n, m, b, ns, x, err, K1, e), n)
+    return acc
+
+
 def run(ctx):
     sp = c01.specs(ctx)
     points = cm.quick_points(ctx) if ctx.quick else cm.POINTS
@@ -217,6 +256,7 @@ def run(ctx):
         print(json.dumps({k: v for k, v in sorted(acc.extra.items())}, indent=0))
         return 0
     acc.merge(ctx.pmap(work_flags, flag_cases(), chunk=4))
+    acc.merge(ctx.pmap(work_short, short_cases(), chunk=16))
     try:
         from mc.props import c02_multi
         acc.merge(c02_multi.run_multi(ctx))
@@ -248,6 +288,10 @@ def replay(case):
         a = c02_multi.work_fun_assigned([(case['entry'], case['method'], case['start'])])
         bad = [r['detail'] for k, (n, recs) in a.viol.items() for r in recs]
         return not bad, '%r -> %s' % (case, bad or 'the record describes the assigned function')
+    if case.get('kind') == 'short':
+        a = work_short([(case['f'], case['method'], case['n'], case['base_step'], case['num_steps'], case['x'])])
+        bad = [r['detail'] for k, (n, recs) in a.viol.items() for r in recs]
+        return not bad, '%r -> %s' % (case, bad or 'estimate covers the error')
     if case.get('kind') == 'flag':
         a = work_flags([(case['cls'], case['method'], case['n'], case['order'], case['x'])])
         bad = [r['detail'] for k, (n, recs) in a.viol.items() for r in recs]
